@@ -16,6 +16,7 @@ import (
 	isaacblock "github.com/spikeekips/mitum/isaac/block"
 	"github.com/spikeekips/mitum/util"
 	"github.com/spikeekips/mitum/util/fixedtree"
+	"github.com/spikeekips/mitum/util/hint"
 	"pgregory.net/rapid"
 	"verif/internal/ev"
 	"verif/internal/gen"
@@ -31,6 +32,9 @@ type c16Items struct {
 	StsTree  fixedtree.Tree
 	IVP      base.INITVoteproof
 	AVP      base.ACCEPTVoteproof
+	// serve a tree item even when the tree has no nodes (a tree file whose header says "0 nodes")
+	EmptyOpsTreeFile bool
+	EmptyStsTreeFile bool
 }
 
 func c16FromBlock(b bbBlock) c16Items {
@@ -148,6 +152,26 @@ func c16Inconsistent(it c16Items) (bad []string) {
 	return bad
 }
 
+// c16OnlyEmptyAgainstRoot: all broken clauses are operations/states served as nothing at all (no items, tree of zero
+// nodes) while the manifest commits to a root.
+func c16OnlyEmptyAgainstRoot(it c16Items, bad []string) bool {
+	for _, b := range bad {
+		switch {
+		case b == "operations" && len(it.Ops) < 1 && it.OpsTree.Len() < 1 && it.Manifest.OperationsTree() != nil:
+		case b == "states" && len(it.States) < 1 && it.StsTree.Len() < 1 && it.Manifest.StatesTree() != nil:
+		default:
+			return false
+		}
+	}
+
+	return len(bad) > 0
+}
+
+// c16Validate runs the repository's block validator on the block files under readers.
+func c16Validate(readers *isaac.BlockItemReaders, h base.Height) error {
+	return isaacblock.IsValidBlockFromLocalFS(readers.Item, h, gen.NetworkID, nil, nil, nil)
+}
+
 func c16StatesTree(sts []base.State) (fixedtree.Tree, error) {
 	w, err := fixedtree.NewWriter(base.StateFixedtreeHint, uint64(len(sts)))
 	if err != nil {
@@ -194,8 +218,13 @@ func c16Write(root string, h base.Height, it c16Items, signer base.LocalNode) (b
 		}
 	}
 
-	if it.OpsTree.Len() > 0 {
+	switch {
+	case it.OpsTree.Len() > 0:
 		if err := w.SetOperationsTree(ctx, it.OpsTree); err != nil {
+			return fail(err)
+		}
+	case it.EmptyOpsTreeFile:
+		if err := w.SetOperationsTree(ctx, fixedtree.Tree{BaseHinter: hint.NewBaseHinter(base.OperationFixedtreeHint)}); err != nil {
 			return fail(err)
 		}
 	}
@@ -206,8 +235,13 @@ func c16Write(root string, h base.Height, it c16Items, signer base.LocalNode) (b
 		}
 	}
 
-	if it.StsTree.Len() > 0 {
+	switch {
+	case it.StsTree.Len() > 0:
 		if err := w.SetStatesTree(ctx, it.StsTree); err != nil {
+			return fail(err)
+		}
+	case it.EmptyStsTreeFile:
+		if err := w.SetStatesTree(ctx, fixedtree.Tree{BaseHinter: hint.NewBaseHinter(base.StateFixedtreeHint)}); err != nil {
 			return fail(err)
 		}
 	}
@@ -235,7 +269,9 @@ func c16Write(root string, h base.Height, it c16Items, signer base.LocalNode) (b
 var c16Kinds = []string{
 	"rewritten-untampered",
 	"foreign-states-tree", "extra-state", "missing-state", "altered-state", "states-and-tree-rebuilt",
+	"all-states-dropped", "states-dropped-tree-emptied",
 	"operation-missing", "operation-foreign", "foreign-operations-tree", "operations-and-tree-of-other-block",
+	"all-operations-dropped", "operations-dropped-tree-emptied",
 	"proposal-other-block", "proposal-same-point-other-fact",
 	"voteproofs-other-block", "accept-majority-other-block",
 	"manifest-other-states-root", "manifest-other-operations-root", "manifest-other-proposal",
@@ -284,6 +320,25 @@ func c16Apply(rt *rapid.T, s *c15Src, tm *c16Tamper, it *c16Items) {
 
 			it.StsTree = tr
 		}
+	case "all-states-dropped":
+		// the whole `states` item is withheld (no states file, no map item); the genuine states tree is still served
+		tm.Detail = fmt.Sprintf("drop all %d", len(it.States))
+		it.States = nil
+	case "states-dropped-tree-emptied":
+		// no states, and the states-tree item is a tree file of zero nodes (the block map needs the item when the manifest
+		// has a states root)
+		tm.Detail = fmt.Sprintf("drop all %d, tree file of 0 nodes", len(it.States))
+		it.States = nil
+		it.StsTree = fixedtree.EmptyTree()
+		it.EmptyStsTreeFile = true
+	case "all-operations-dropped":
+		tm.Detail = fmt.Sprintf("drop all %d", len(it.Ops))
+		it.Ops = nil
+	case "operations-dropped-tree-emptied":
+		tm.Detail = fmt.Sprintf("drop all %d, tree file of 0 nodes", len(it.Ops))
+		it.Ops = nil
+		it.OpsTree = fixedtree.EmptyTree()
+		it.EmptyOpsTreeFile = true
 	case "operation-missing":
 		i := pick(len(it.Ops), "dropOp")
 		it.Ops = append(it.Ops[:i:i], it.Ops[i+1:]...)
@@ -341,7 +396,8 @@ func TestC16(t *testing.T) {
 	defer r.Finish()
 	r.Rule("blocks 0..42 of a production-path chain (genesis, candidate, join, filler states); per case one block is served from an attacker's directory written with the production LocalFSWriter " +
 		"(checksums recomputed, block map re-signed by the attacker or by the original signer) either untouched or with one tampering {states tree of another block, extra / missing / altered state, " +
-		"altered states with a consistently rebuilt tree, missing / foreign operation, foreign operations tree, operations and tree of another block, proposal of another block or another proposal for the same point, voteproofs of another block, " +
+		"altered states with a consistently rebuilt tree, all states withheld with the genuine tree or with a tree file of zero nodes, missing / foreign operation, foreign operations tree, operations and tree of another block, " +
+		"all operations withheld with the genuine tree or with a tree file of zero nodes, proposal of another block or another proposal for the same point, voteproofs of another block, " +
 		"ACCEPT voteproof at the same point whose majority is another block hash, manifest re-pointed to another states root / operations root / proposal, item file swapped after signing}; " +
 		"imported into a fresh node with the real BlockImporter (WriteMap, WriteItem per item, Save, merge). non-trivial: tampered and every item checksum matches the re-signed map; " +
 		"distinct by (height, other height, kind, parameters, signer)")
@@ -350,6 +406,8 @@ func TestC16(t *testing.T) {
 		"oracle from the statement, independent of the validator: proposal fact hash and height equal the manifest's; operation fact hashes equal the keys of the served operations tree and its reference root equals the manifest's; "+
 			"same for states (hash keys, block height); both voteproofs at the manifest's height, same round, INIT/ACCEPT; ACCEPT result is a majority whose new-block hash is the manifest hash",
 		"differential part: a stored block must pass isaacblock.IsValidBlockFromLocalFS on the destination's files",
+		"the validator is judged by the same clauses, independent of the importer: IsValidBlockFromLocalFS run on the served block files (and on the stored ones) must not accept files the clause-by-clause oracle calls inconsistent; "+
+			"a validator that rejects consistent served files is not judged",
 		"who signed the block map and whether voteproof signers belong to the suffrage are outside the statement; rejecting is never a violation, but real blocks served unchanged must be stored for the run to count")
 
 	s, err := c15GetSource()
@@ -460,8 +518,14 @@ func TestC16(t *testing.T) {
 		bad := c16Inconsistent(it)
 		desc := fmt.Sprintf("block %d served with %s (other block %d, %s, map signed by %s)", tm.Height, tm.Kind, tm.Other, tm.Detail, signer.Address())
 
+		// the repository's validator judged on its own, on the block files exactly as the source serves them (the importer
+		// copies item files verbatim, so these are the files a node would hold after storing the block)
+		srcVerr := c16Validate(src, h)
+
+		var verr error
+
 		if stored {
-			verr := isaacblock.IsValidBlockFromLocalFS(d.Readers.Item, h, gen.NetworkID, nil, nil, nil)
+			verr = c16Validate(d.Readers, h)
 
 			if len(bad) > 0 {
 				sig := "importer-skips-manifest-crosscheck"
@@ -481,6 +545,28 @@ func TestC16(t *testing.T) {
 
 			if verr != nil && len(bad) < 1 {
 				r.Violation(rt, "stored-block-fails-own-validator", "%s: stored, but IsValidBlockFromLocalFS rejects the stored files: %s", desc, bbErrStr(verr))
+			}
+		}
+
+		// the validator itself: "pass the repository's own block validator" has to imply every clause of the statement, so a
+		// set of block files that breaks a clause and is accepted by IsValidBlockFromLocalFS is a violation whatever the
+		// importer did with the block
+		if len(bad) > 0 {
+			sig := "validator-accepts-inconsistent-block"
+
+			// root cause told apart by the shape of the served items, not by the tampering: every broken clause is "no
+			// items and a tree of zero nodes against a non-nil root in the manifest"
+			if c16OnlyEmptyAgainstRoot(it, bad) {
+				sig = "validator-accepts-empty-tree-for-manifest-root"
+			}
+
+			switch {
+			case stored && verr == nil:
+				r.Violation(rt, sig, "%s: IsValidBlockFromLocalFS accepts the stored block files although they do not match the manifest in: %s",
+					desc, strings.Join(bad, ", "))
+			case srcVerr == nil:
+				r.Violation(rt, sig, "%s: IsValidBlockFromLocalFS accepts the served block files although they do not match the manifest in: %s (importer: stored=%v %s %s)",
+					desc, strings.Join(bad, ", "), stored, step, bbErrStr(ierr))
 			}
 		}
 
@@ -505,6 +591,12 @@ func TestC16(t *testing.T) {
 			classes = append(classes, "oracle:inconsistent")
 		} else {
 			classes = append(classes, "oracle:consistent")
+		}
+
+		if srcVerr == nil {
+			classes = append(classes, "validator-on-served-files:accepts")
+		} else {
+			classes = append(classes, "validator-on-served-files:rejects")
 		}
 
 		r.Case(fmt.Sprintf("%d|%d|%s|%s|%v", tm.Height, tm.Other, tm.Kind, tm.Detail, attackerSigns), nontrivial, classes...)
